@@ -5,6 +5,7 @@
 #define VERIF_VBUS_H_
 
 #include <cstdint>
+#include <atomic>
 #include <deque>
 #include <functional>
 #include <mutex>
@@ -41,6 +42,14 @@ struct Bus {
   // which condition variable belongs to the bus thread's WaitThread (virtual sleep instead of real wait)
   const void* busWaitCond = nullptr;
   bool stopRequested = false;
+  // rendezvous with client threads (C04): a registered client thread is flagged while it blocks in a condition wait
+  std::atomic<bool> clientWaiting[64];
+  std::atomic<long> clientWaits{0};
+  std::atomic<int> clientState[64];             // 0 idle, 1 running ebusd code, 2 blocked in a condition wait
+  bool holdTimeWhileClientsRun = false;         // deterministic mode: virtual time only advances while no client is running
+  long idleRealSleepUs = 0;                     // real sleep per idle ppoll of the bus thread (stress mode: lets clients run)
+  double realUsPerVirtualMs = 0;                // pacing: real microseconds slept per virtual millisecond that passes in ppoll
+  double paceDebt = 0;
 
   void reset();
   void push(int64_t t, uint8_t b) { rx.push_back({t, b}); }
@@ -48,6 +57,8 @@ struct Bus {
 };
 
 extern Bus g;
+extern thread_local int t_clientIdx;      // >= 0 on registered client threads
+void realSleepUs(long us);
 
 /** FileTransport whose descriptor is served by the virtual bus. */
 class SimTransport : public ebusd::FileTransport {
